@@ -14,6 +14,16 @@ def evaluate(e, env):
         try: base = evaluate(e.value, env)
         except Unsupported: raise Unsupported("attribute %s" % key)
         if isinstance(base, dict) and ("." + e.attr) in base: return base["." + e.attr]      # sample object: {'.attr': value}
+        h_ = (env.get("__functions__") or {}).get(e.attr)
+        if isinstance(base, dict) and h_ is not None and any(isinstance(d_, ast.Name) and d_.id == "property" for d_ in h_.decorator_list) and h_.args.args and env.get("__depth__", 0) < 6:
+            env2 = dict(env); env2["__depth__"] = env.get("__depth__", 0) + 1; env2[h_.args.args[0].arg] = base       # a property of the sample's class: its getter is interpreted
+            for k_ in [k_ for k_ in env2 if isinstance(k_, str) and k_.startswith(h_.args.args[0].arg + ".")]: del env2[k_]
+            return run_block(h_.body, env2)
+        if isinstance(base, Trusted):
+            if e.attr not in base.names: raise Unsupported("%s.%s is outside the trusted part of the standard library" % (getattr(base.obj, "__name__", "?"), e.attr))
+            v_ = getattr(base.obj, e.attr)
+            return PyFn(lambda *a, _f=v_, **k: _trusted_call(_f, a, k)) if callable(v_) and not isinstance(v_, type) else v_
+        if isinstance(base, _re.Pattern) and e.attr in ("pattern", "flags"): return getattr(base, e.attr)
         if isinstance(base, InstObj):
             if e.attr == "__dict__": return base.own
             if e.attr == "__class__": return base.cls
@@ -44,7 +54,17 @@ def evaluate(e, env):
                 if all(evaluate(c, env3) for c in g.ifs): gen(i + 1, env3)
         gen(0, env); return dict(out) if isinstance(e, ast.DictComp) else (set(out) if isinstance(e, ast.SetComp) else out)
     if isinstance(e, ast.Name):
+        if e.id in env and e.id not in env.get("__global_names__", ()): return env[e.id]
+        if e.id in (env.get("__globals__") or {}): return env["__globals__"][e.id]      # module-level state shared by all interpreted functions
         if e.id in env: return env[e.id]
+        # a module-level constant of the analysed file (env["__module__"]: its ast.Module): literal tables and strings
+        mod = env.get("__module__")
+        if mod is not None:
+            for st_ in mod.body:
+                if isinstance(st_, (ast.Assign, ast.AnnAssign)) and st_.value is not None and any(isinstance(t_, ast.Name) and t_.id == e.id for t_ in (st_.targets if isinstance(st_, ast.Assign) else [st_.target])):
+                    try: v_ = evaluate(st_.value, dict(TRUSTED, **{"__module__": mod, "__depth_const__": env.get("__depth_const__", 0) + 1})) if env.get("__depth_const__", 0) < 4 else None
+                    except (Unsupported, Raised): break
+                    return v_
         raise Unsupported("name %s " % e.id)
     if isinstance(e, ast.IfExp): return evaluate(e.body, env) if evaluate(e.test, env) else evaluate(e.orelse, env)
     if isinstance(e, ast.BoolOp):
@@ -56,6 +76,10 @@ def evaluate(e, env):
         return v
     if isinstance(e, ast.UnaryOp) and isinstance(e.op, ast.Not): return not evaluate(e.operand, env)
     if isinstance(e, ast.UnaryOp) and isinstance(e.op, ast.USub): return -evaluate(e.operand, env)
+    if isinstance(e, ast.BinOp) and isinstance(e.op, (ast.BitOr, ast.BitAnd)):
+        l_, r_ = evaluate(e.left, env), evaluate(e.right, env)
+        try: return l_ | r_ if isinstance(e.op, ast.BitOr) else l_ & r_
+        except TypeError: raise Raised("TypeError")
     if isinstance(e, ast.BinOp) and isinstance(e.op, (ast.Add, ast.Sub, ast.Mult)):
         l_, r_ = evaluate(e.left, env), evaluate(e.right, env)
         try: return l_ + r_ if isinstance(e.op, ast.Add) else (l_ - r_ if isinstance(e.op, ast.Sub) else l_ * r_)
@@ -100,8 +124,13 @@ def evaluate(e, env):
     if isinstance(e, ast.Call):
         if isinstance(e.func, ast.Attribute) and e.func.attr in ("replace", "strip", "lstrip", "rstrip", "removeprefix", "removesuffix", "startswith", "endswith", "lower", "upper", "casefold", "join", "split", "rsplit", "partition", "rpartition", "format"):
             recv = evaluate(e.func.value, env)
-            if not isinstance(recv, str): raise Unsupported("method call on a non-string")
-            return getattr(recv, e.func.attr)(*[evaluate(a, env) for a in e.args])      # Python's own str semantics (trusted base)
+            if isinstance(recv, str): return getattr(recv, e.func.attr)(*[evaluate(a, env) for a in e.args])      # Python's own str semantics (trusted base)
+        if isinstance(e.func, ast.Attribute) and e.func.attr in _PATTERN_METHODS + _MATCH_METHODS:
+            try: recv_ = evaluate(e.func.value, env)
+            except Unsupported: recv_ = None
+            if (isinstance(recv_, _re.Pattern) and e.func.attr in _PATTERN_METHODS) or (isinstance(recv_, _re.Match) and e.func.attr in _MATCH_METHODS):
+                r_ = _trusted_call(getattr(recv_, e.func.attr), [evaluate(a, env) for a in e.args], {k.arg: evaluate(k.value, env) for k in e.keywords if k.arg})
+                return list(r_) if e.func.attr == "finditer" else r_
         if isinstance(e.func, ast.Name) and e.func.id in ("len", "str", "bool", "list", "tuple", "sorted", "set", "dict", "id", "type", "any", "all", "sum", "min", "max") and not e.keywords: return {"any": any, "all": all, "sum": sum, "min": min, "max": max, "len": len, "str": str, "bool": bool, "list": list, "tuple": tuple, "sorted": sorted, "set": set, "dict": dict, "id": id, "type": lambda o: o.cls if isinstance(o, InstObj) else (o.get(".__class__") if isinstance(o, dict) and ".__class__" in o else type(o))}[e.func.id](*[evaluate(a, env) for a in e.args])
         if isinstance(e.func, ast.Attribute) and e.func.attr in ("items", "keys", "values", "get", "pop", "clear", "setdefault") and not e.keywords:
             recv = evaluate(e.func.value, env)
@@ -157,6 +186,15 @@ def evaluate(e, env):
             T = {"str": str, "bool": bool, "int": int, "float": float, "list": list, "tuple": tuple, "dict": dict, "set": set}
             sample_classes = env.get("__classes__") or {}
             if isinstance(e.args[1], ast.Name) and e.args[1].id in sample_classes: return bool(sample_classes[e.args[1].id](evaluate(e.args[0], env)))
+            if isinstance(e.args[1], ast.Tuple) and e.args[1].elts and all(isinstance(x_, ast.Name) and x_.id in sample_classes for x_ in e.args[1].elts):
+                v_ = evaluate(e.args[0], env); return any(bool(sample_classes[x_.id](v_)) for x_ in e.args[1].elts)
+            if not (isinstance(e.args[1], ast.Name) and e.args[1].id in T):
+                try: cv_ = evaluate(e.args[1], env)
+                except Unsupported: cv_ = None
+                refs_ = [cv_] if isinstance(cv_, ClassRef) else (list(cv_) if isinstance(cv_, (tuple, list)) and cv_ and all(isinstance(x_, ClassRef) for x_ in cv_) else None)
+                if refs_ is not None:
+                    if not all(r_.name in sample_classes for r_ in refs_): raise Unsupported("isinstance against " + ast.unparse(e.args[1]))
+                    v_ = evaluate(e.args[0], env); return any(bool(sample_classes[r_.name](v_)) for r_ in refs_)
             def ty(x):
                 if isinstance(x, ast.Name) and x.id in T: return T[x.id]
                 if isinstance(x, ast.Tuple): return tuple(ty(y) for y in x.elts)
@@ -170,16 +208,27 @@ def evaluate(e, env):
             params = [a.arg for a in h.args.args]
             static_ = any(isinstance(d_, ast.Name) and d_.id == "staticmethod" for d_ in h.decorator_list)
             if params and params[0] in ("self", "cls") and not static_ and (isinstance(e.func, ast.Attribute) or isinstance(getattr(h, "_parent", None), ast.ClassDef)): params = params[1:]
-            if h.args.vararg or h.args.kwarg or len(e.args) > len(params) or any(isinstance(a, ast.Starred) for a in e.args) or any(k.arg is None for k in e.keywords): raise Unsupported("call of helper %s with star arguments" % hn)
-            env2 = dict(env); env2["__depth__"] = env.get("__depth__", 0) + 1
+            if h.args.vararg or len(e.args) > len(params) or any(isinstance(a, ast.Starred) for a in e.args) or (any(k.arg is None for k in e.keywords) and not h.args.kwarg): raise Unsupported("call of helper %s with star arguments" % hn)
+            env2 = dict(env); env2["__depth__"] = env.get("__depth__", 0) + 1; env2["__global_names__"] = set()
+            params = params + [a.arg for a in h.args.kwonlyargs]
             # dotted sample keys rooted at a parameter name of the helper must not leak in from the caller
             for k_ in [k_ for k_ in env2 if isinstance(k_, str) and k_.split(".")[0].split("(")[-1] in params]: del env2[k_]
             defaults = dict(zip(params[len(params) - len(h.args.defaults):], h.args.defaults))
             for name_, dflt in defaults.items(): env2[name_] = evaluate(dflt, env)
             for name_, a in zip(params, e.args): env2[name_] = evaluate(a, env)
+            extra_kw = {}
+            for a_, d_ in zip(h.args.kwonlyargs, h.args.kw_defaults):
+                if d_ is not None: env2[a_.arg] = evaluate(d_, env)
             for k in e.keywords:
-                if k.arg not in params: raise Unsupported("unknown keyword %s for helper %s" % (k.arg, hn))
+                if k.arg is None: extra_kw.update(evaluate(k.value, env)); continue
+                if k.arg not in params:
+                    if h.args.kwarg: extra_kw[k.arg] = evaluate(k.value, env); continue
+                    raise Unsupported("unknown keyword %s for helper %s" % (k.arg, hn))
                 env2[k.arg] = evaluate(k.value, env)
+            for k_ in list(extra_kw):
+                if k_ in params: env2[k_] = extra_kw.pop(k_)
+            if h.args.kwarg: env2[h.args.kwarg.arg] = extra_kw
+            elif extra_kw: raise Unsupported("unknown keywords %s for helper %s" % (sorted(extra_kw), hn))
             missing = [x for x in params if x not in env2]
             if missing: raise Unsupported("helper %s called without %s" % (hn, missing))
             if any(isinstance(n_, (ast.Yield, ast.YieldFrom)) for n_ in ast.walk(h)):
@@ -203,6 +252,28 @@ def evaluate(e, env):
         if isinstance(fv, Closure) and not e.keywords: return fv(*[evaluate(a, env) for a in e.args])
         if isinstance(fv, DefClosure): return fv(*[evaluate(a, env) for a in e.args], **{k.arg: evaluate(k.value, env) for k in e.keywords if k.arg})
     raise Unsupported("expression outside the supported subset : " + ast.unparse(e)[:80])
+import re as _re, codecs as _codecs, unicodedata as _ud
+class Trusted:
+    """a whitelisted part of the standard library whose semantics are Python's own (trusted base, like the str methods):
+    attribute access yields constants or callables; calls run the real function; compiled patterns and match objects
+    returned by `re` answer their usual methods.  A Python exception raised inside becomes Raised(<class name>) with the
+    names of its base classes, so that handlers of the evaluated code catch it as they would at run time."""
+    def __init__(s, obj, names): s.obj, s.names = obj, set(names)
+TRUSTED = {
+    "re": Trusted(_re, ("compile", "match", "fullmatch", "search", "sub", "escape", "findall", "split", "error", "IGNORECASE", "I", "MULTILINE", "M", "UNICODE", "U", "VERBOSE", "X", "DOTALL", "S")),
+    "codecs": Trusted(_codecs, ("decode", "encode")),
+    "unicodedata": Trusted(_ud, ("lookup", "name", "normalize", "category")),
+}
+_PATTERN_METHODS = ("match", "fullmatch", "search", "sub", "findall", "split", "finditer")
+_MATCH_METHODS = ("span", "group", "groups", "start", "end", "groupdict", "expand")
+def _trusted_call(f, args, kw):
+    try: return f(*args, **kw)
+    except (Raised, Unsupported): raise
+    except Exception as ex:
+        r_ = Raised(type(ex).__name__, str(ex)); r_.bases = [c.__name__ for c in type(ex).__mro__]; raise r_
+class ClassRef:
+    """a class of the analysed program used as a value (stored in a tuple, passed on): isinstance against it is answered by env["__classes__"][name]"""
+    def __init__(s, name): s.name = name
 class Closure:
     """value of a lambda expression of the analysed program: its body is evaluated over the defining environment when called
     (also by a stand-in supplied by the analysis, e.g. a modelled get_children that applies the selector to sample objects)"""
@@ -250,14 +321,17 @@ class PyFn:
     """a Python function supplied by the analysis as the meaning of a name of the analysed program (a stub for a library call or
     for a function whose effect is modelled, e.g. fnmatch.fnmatch, language_descriptions)"""
     def __init__(s, fn): s.fn = fn
+    def __call__(s, *a, **k): return s.fn(*a, **k)
 class Callee:
     """stand-in for a callable object of the analysed program: calling it records its tag and returns ('result', tag)"""
     def __init__(s, tag, log, ret="result"): s.tag, s.log, s.ret = tag, log, ret
     def __call__(s, *args): s.log.append(s.tag); return None if s.ret is None else (s.ret, s.tag)
 
+class _ExcSample(dict):
+    def __str__(s): return str(s.get(".msg", ""))
 class Raised(Exception):
     """the evaluated code raised (class name, message)"""
-    def __init__(s, cls, msg=""): s.cls, s.msg = cls, msg
+    def __init__(s, cls, msg=""): s.cls, s.msg, s.value, s.bases = cls, msg, None, [cls]
 class _Return(Exception):
     def __init__(s, v): s.v = v
 def run_block(stmts, env, max_steps=2000):
@@ -266,7 +340,9 @@ def run_block(stmts, env, max_steps=2000):
     block falls off its end).  The environment maps names and dotted attribute chains ('self.x.y') to sample values."""
     steps = [0]
     def assign(tg, v):
-        if isinstance(tg, ast.Name): env[tg.id] = v
+        if isinstance(tg, ast.Name):
+            if tg.id in env.get("__global_names__", ()) and env.get("__globals__") is not None: env["__globals__"][tg.id] = v
+            else: env[tg.id] = v
         elif isinstance(tg, (ast.Tuple, ast.List)):
             v = list(v)
             if len(v) != len(tg.elts): raise Unsupported("unpacking arity")
@@ -292,6 +368,14 @@ def run_block(stmts, env, max_steps=2000):
             if isinstance(s, ast.Raise) and s.exc is None and env.get("__exc__") is not None: raise env["__exc__"]
             if isinstance(s, ast.Raise):
                 c = s.exc
+                if isinstance(c, ast.Call) and isinstance(c.func, ast.Name) and isinstance(env.get(c.func.id), PyFn):
+                    r_ = Raised(c.func.id); r_.value = evaluate(c, env); raise r_        # the analysis models the exception class: keep the constructed value
+                if c is not None and not (isinstance(c, ast.Call) and isinstance(c.func, ast.Name) and c.func.id not in env and c.func.id not in (env.get("__functions__") or {})):
+                    # an exception object computed by the evaluated code (a helper that builds the error, a variable): its sample value names the class
+                    try: v_ = evaluate(c, env)
+                    except Unsupported: v_ = None
+                    if isinstance(v_, dict) and (v_.get(".cls") or v_.get(".exc")):
+                        r_ = Raised(v_.get(".cls") or v_.get(".exc")); r_.value = v_; raise r_
                 raise Raised(c.func.id if isinstance(c, ast.Call) and isinstance(c.func, ast.Name) else ast.unparse(c) if c is not None else "re-raise")
             if isinstance(s, ast.Assign):
                 v = evaluate(s.value, env)
@@ -345,16 +429,22 @@ def run_block(stmts, env, max_steps=2000):
                             if t is None: return None
                             if isinstance(t, ast.Tuple): return [n_ for x in t.elts for n_ in names(x)]
                             return [t.attr if isinstance(t, ast.Attribute) else getattr(t, "id", "?")]
-                        h = next((h_ for h_ in s.handlers if names(h_.type) is None or r.cls in names(h_.type) or any(n_ in ("Exception", "BaseException") for n_ in names(h_.type)) or ("TextXError" in names(h_.type) and r.cls.startswith("TextX"))), None)
+                        h = next((h_ for h_ in s.handlers if names(h_.type) is None or r.cls in names(h_.type) or any(b_ in names(h_.type) for b_ in getattr(r, "bases", ())) or any(n_ in ("Exception", "BaseException") for n_ in names(h_.type)) or ("TextXError" in names(h_.type) and r.cls.startswith("TextX"))), None)
                         if h is None: raise
-                        if h.name: env[h.name] = {".cls": r.cls}
+                        if h.name:
+                            if isinstance(r.value, dict): r.value.setdefault(".cls", r.cls); env[h.name] = r.value
+                            else:
+                                if getattr(r, "bound", None) is None: r.bound = _ExcSample({".cls": r.cls, ".msg": r.msg})
+                                env[h.name] = r.bound        # one sample object per raised exception: changes made by a handler stay visible
                         prev = env.get("__exc__"); env["__exc__"] = r
                         try: block(h.body)
                         finally: env["__exc__"] = prev
                     else: block(s.orelse)
                 finally: block(s.finalbody)
                 continue
-            if isinstance(s, (ast.Global, ast.Nonlocal)): continue
+            if isinstance(s, ast.Global):
+                env["__global_names__"] = set(env.get("__global_names__", ())) | set(s.names); continue
+            if isinstance(s, ast.Nonlocal): continue
             if isinstance(s, ast.FunctionDef):
                 env[s.name] = DefClosure(s, env)
                 if s.name in (env.get("__functions__") or {}):       # the nearer definition wins over a same-named helper of an outer scope
